@@ -92,6 +92,42 @@ std::string handle(const std::string& op, Args& a)
 		a.end();
 		return run_forked([&](Out& o) { o << Inv_Erf(p); });
 	}
+	if(op == "c17.inverfscan")
+	{
+		// p = sign * (1 - q), q log-uniform in [qlo, qhi) with relative step `step`, first point at offset `off`
+		int sign   = a.i64();
+		double qlo = a.dbl(), qhi = a.dbl(), step = a.dbl(), off = a.dbl();
+		a.end();
+		return run_forked([&](Out& o) {
+			double ls = std::log1p(step);
+			for(double k = off;; k += 1.0)
+			{
+				double q = qlo * std::exp(k * ls);
+				if(!(q < qhi) || !(q < 1.0))
+					break;
+				double p = sign * (1.0 - q);
+				if(std::fabs(p) >= 1.0 || std::fabs(p - 1.0) < 1e-16)
+					continue;
+				o << p << Inv_Erf(p);
+			}
+		});
+	}
+	if(op == "c17.dawscan")
+	{
+		// x = sign * (lo + (k + off) * (hi - lo) / n), k = 0..n-1
+		int sign  = a.i64();
+		double lo = a.dbl(), hi = a.dbl();
+		unsigned n = a.u64();
+		double off = a.dbl();
+		a.end();
+		return run([&](Out& o) {
+			for(unsigned k = 0; k < n; k++)
+			{
+				double x = sign * (lo + (k + off) * (hi - lo) / n);
+				o << x << Dawson_Integral(x) << Erfi(x);
+			}
+		});
+	}
 	if(op == "c17.vshy" || op == "c17.vshpsi")
 	{
 		int c = a.i64(), l = a.i64(), m = a.i64(), lh = a.i64(), mh = a.i64();
